@@ -363,6 +363,28 @@ def run(c):
                 c.violation("containers:died-free:scn=%d" % s["id"],
                             "free run of scenario %d: harness process died" % s["id"], {"scenario": s, "history": r})
 
+    # ---- 3b. maintenance calls and counter stress (spec/Trace_PoolMaintenance.tla) -----------------------
+    mout = os.path.join(rd, "maint.ndjson")
+    rc, o = vlib.sh("%s maint %d %d %s" % (exe, c.seed, 60 if tier == "quick" else 1500, mout), timeout=900)
+    if rc != 0:
+        c.violation("containers:maintenance:abort", "maintenance / stress driver of the containers failed (rc=%d): %s" % (rc, o[-300:]), {})
+    else:
+        mrecs = vlib.read_ndjson(mout)
+        stm, rm = vlib.validate_trace("Trace_PoolMaintenance.tla", "Trace_PoolMaintenance.cfg", mout, rd, tag="maint", dfs=False)
+        if stm == "error":
+            raise vlib.Inconclusive("TLC error on maintenance records:\n" + rm.out[-1500:])
+        c.add_case(("maintenance", len(mrecs)), nontrivial=True)
+        if stm != "accepted":
+            m = re.findall(r"/\\ l = (\d+)", rm.out)
+            pos = int(m[-1]) - 1 if m else getattr(rm, "maxl", 1)
+            rec = mrecs[pos - 1] if 0 < pos <= len(mrecs) else None
+            what = (rec or {}).get("kind", (rec or {}).get("op", "?"))
+            c.violation("containers:%s:%s" % (stm, what), "sequential maintenance call / counter stress of the real containers violates Layer A "
+                        "(%s) at record %s" % (stm, rec), {"record": rec, "records_before": mrecs[max(0, pos - 6):pos]})
+        else:
+            c.cov["traces_validated_against_impl"] += 1
+        c.cov["maintenance_records"] = len(mrecs)
+
     # ---- 4. self-test ---------------------------------------------------------------
     s = SCENARIOS[3]
     good = next(r for r in byscn[s["id"]] if not any(x["e"] in ("stuck", "died") for x in r))
